@@ -169,4 +169,208 @@ theorem decodeType_total (dec : Dec) (hdec : DecTotal dec) (data : Bytes) (oid :
     · exact decodeArray_total dec hdec data _
     · exact hdec data oid
 
+/-! ### size of the result (the allocation side of C10) -/
+
+theorem alignGo_ge (o a : Nat) : o ≤ alignGo o a := by
+  unfold alignGo
+  split
+  · exact Nat.le_refl _
+  · unfold andNot
+    have := @Nat.and_le_right (o + a - 1) (a - 1)
+    omega
+
+theorem alignRel_ge (off a : Nat) : off ≤ alignRel off a := by
+  unfold alignRel; have := alignGo_ge (off + 4) a; omega
+
+/-- the loop never returns more elements than the claimed count -/
+theorem parseElems_length_le (dec : Dec) (raw : Bytes) (elemOid elemLen elemAlign : Nat) (fixed : Bool)
+    (nulls : Option Bytes) (n i off : Nat) (es : List GoVal)
+    (h : parseElems dec raw elemOid elemLen elemAlign fixed nulls n i off = .ok es) : es.length ≤ n := by
+  induction n generalizing i off es with
+  | zero => simp [parseElems] at h; subst h; simp
+  | succ n ih =>
+    simp only [parseElems] at h
+    cases hb : nullAt nulls i with
+    | error e => simp [hb] at h
+    | ok b =>
+      simp only [hb, ok_bind] at h
+      cases b with
+      | true =>
+        simp only [if_true] at h
+        cases hr : parseElems dec raw elemOid elemLen elemAlign fixed nulls n (i + 1) off with
+        | error e => simp [hr] at h
+        | ok rest =>
+          simp only [hr, ok_bind, pure_eq_ok] at h
+          injection h with h; subst h
+          have := ih _ _ _ hr; simp; omega
+      | false =>
+        simp only [Bool.false_eq_true, if_false] at h
+        cases hr : readElem dec raw elemOid elemLen fixed (alignRel off elemAlign) with
+        | error e => simp [hr] at h
+        | ok r =>
+          simp only [hr, ok_bind] at h
+          cases r with
+          | none => simp at h; subst h; simp
+          | some p =>
+            obtain ⟨v, off'⟩ := p
+            simp only [] at h
+            cases hr2 : parseElems dec raw elemOid elemLen elemAlign fixed nulls n (i + 1) off' with
+            | error e => simp [hr2] at h
+            | ok rest =>
+              simp only [hr2, ok_bind, pure_eq_ok] at h
+              injection h with h; subst h
+              have := ih _ _ _ hr2; simp; omega
+
+/-- a stored element consumes at least one byte and lies inside the value -/
+theorem readElem_progress (dec : Dec) (raw : Bytes) (elemOid elemLen : Nat) (fixed : Bool) (off : Nat) (v : GoVal) (off' : Nat)
+    (hl : fixed = true → 1 ≤ elemLen)
+    (h : readElem dec raw elemOid elemLen fixed off = .ok (some (v, off'))) : off < off' ∧ off' ≤ raw.length := by
+  unfold readElem at h
+  split at h
+  · rename_i hf
+    have := hl hf
+    split at h
+    · simp at h
+    · rename_i hlen
+      rw [slice_ok raw off (off + elemLen) (by omega) (by omega)] at h
+      simp only [ok_bind] at h
+      cases hd : dec ((raw.take (off + elemLen)).drop off) elemOid with
+      | error e => simp [hd] at h
+      | ok w => simp [hd] at h; omega
+  · split at h
+    · simp at h
+    · rename_i hoff
+      rw [idx_ok raw off (by omega)] at h
+      simp only [ok_bind] at h
+      split at h
+      · split at h
+        · simp at h
+        · rename_i hn
+          rw [slice_ok raw (off + 1) (off + raw[off].toNat / 2) (by omega) (by omega)] at h
+          simp only [ok_bind] at h
+          cases hd : decodeVarlenaElem dec ((raw.take (off + raw[off].toNat / 2)).drop (off + 1)) elemOid with
+          | error e => simp [hd] at h
+          | ok w => simp [hd] at h; omega
+      · split at h
+        · simp at h
+        · rename_i h4
+          rw [uN_ok 4 raw off (by omega)] at h
+          simp only [ok_bind] at h
+          split at h
+          · simp at h
+          · rename_i hn
+            rw [slice_ok raw (off + 4) (off + rd 4 (raw.drop off) / 4) (by omega) (by omega)] at h
+            simp only [ok_bind] at h
+            cases hd : decodeVarlenaElem dec ((raw.take (off + rd 4 (raw.drop off) / 4)).drop (off + 4)) elemOid with
+            | error e => simp [hd] at h
+            | ok w => simp [hd] at h; omega
+
+/-- without a null bitmap every returned element was stored: there are at most as many as bytes after `off` -/
+theorem parseElems_nobitmap_le (dec : Dec) (raw : Bytes) (elemOid elemLen elemAlign : Nat) (fixed : Bool)
+    (hl : fixed = true → 1 ≤ elemLen) (n i off : Nat) (es : List GoVal)
+    (h : parseElems dec raw elemOid elemLen elemAlign fixed none n i off = .ok es) : es.length ≤ raw.length - off := by
+  induction n generalizing i off es with
+  | zero => simp [parseElems] at h; subst h; simp
+  | succ n ih =>
+    simp only [parseElems, nullAt_none, ok_bind, Bool.false_eq_true, if_false] at h
+    cases hr : readElem dec raw elemOid elemLen fixed (alignRel off elemAlign) with
+    | error e => simp [hr] at h
+    | ok r =>
+      simp only [hr, ok_bind] at h
+      cases r with
+      | none => simp at h; subst h; simp
+      | some p =>
+        obtain ⟨v, off'⟩ := p
+        simp only [] at h
+        have hp := readElem_progress dec raw elemOid elemLen fixed _ v off' hl hr
+        have hge := alignRel_ge off elemAlign
+        cases hr2 : parseElems dec raw elemOid elemLen elemAlign fixed none n (i + 1) off' with
+        | error e => simp [hr2] at h
+        | ok rest =>
+          simp only [hr2, ok_bind, pure_eq_ok] at h
+          injection h with h; subst h
+          have := ih _ _ _ hr2; simp; omega
+
+theorem lookup_mem {α β} [BEq α] [LawfulBEq α] (l : List (α × β)) (k : α) (v : β) (h : l.lookup k = some v) : (k, v) ∈ l := by
+  induction l with
+  | nil => simp at h
+  | cons p l ih =>
+    obtain ⟨k', v'⟩ := p
+    simp only [List.lookup] at h
+    split at h
+    · rename_i hk
+      have : k = k' := by simpa using hk
+      injection h with h; subst h; subst this; simp
+    · exact List.mem_cons_of_mem _ (ih h)
+
+/-- every width of the fixed-length table is positive -/
+theorem elemLayout_fixed_pos (elemOid : Nat) (h : (elemLayout elemOid).2.1 = true) : 1 ≤ (elemLayout elemOid).1 := by
+  unfold elemLayout at *
+  cases hlk : fixedLengths.lookup elemOid with
+  | none => simp [hlk] at h
+  | some l =>
+    simp only []
+    have hm := lookup_mem fixedLengths elemOid l hlk
+    have hall : ∀ p ∈ fixedLengths, 1 ≤ p.2 := by decide
+    exact hall _ hm
+
+/-- The result of decodeArray never has more than 8·len(raw) elements (one per bit of a null bitmap that lies inside
+the value; without a bitmap at most one per byte) — whatever the dimensions claim. -/
+theorem decodeArray_size (dec : Dec) (raw : Bytes) (elemOid : Nat) (es : List GoVal)
+    (h : decodeArray dec raw elemOid = .ok (.arr es)) : es.length ≤ 8 * raw.length := by
+  unfold decodeArray at h
+  cases he : isEmptyArray raw with
+  | error e => simp [he] at h
+  | ok b =>
+    simp only [he, ok_bind] at h
+    cases b with
+    | true => simp at h; subst h; simp
+    | false =>
+      simp only [Bool.false_eq_true, if_false] at h
+      split at h
+      · simp at h
+      · cases hn : i32At raw 0 with
+        | error e => simp [hn] at h
+        | ok ndim =>
+          simp only [hn, ok_bind] at h
+          split at h
+          · simp at h
+          · unfold decodeDims at h
+            split at h
+            · simp at h
+            · cases hdo : i32At raw 4 with
+              | error e => simp [hdo] at h
+              | ok dataoff =>
+                simp only [hdo, ok_bind] at h
+                cases hdp : dimsProduct raw ndim.toNat 0 1 with
+                | error e => simp [hdp] at h
+                | ok total =>
+                  simp only [hdp, ok_bind] at h
+                  split at h
+                  · simp at h
+                  · split at h
+                    · split at h
+                      · simp at h
+                      · rename_i hb
+                        cases hs : slice raw (12 + ndim.toNat * 8) (12 + ndim.toNat * 8 + (total.toNat + 7) / 8) with
+                        | error e => simp [hs] at h
+                        | ok bm =>
+                          simp only [hs, ok_bind] at h
+                          cases hp : parseElems dec raw elemOid (elemLayout elemOid).1 (elemLayout elemOid).2.2
+                              (elemLayout elemOid).2.1 (some bm) total.toNat 0 (dataoff - 4).toNat with
+                          | error e => simp [hp] at h
+                          | ok es' =>
+                            simp only [hp, ok_bind, pure_eq_ok] at h
+                            injection h with h; injection h with h; subst h
+                            have := parseElems_length_le _ _ _ _ _ _ _ _ _ _ _ hp
+                            omega
+                    · cases hp : parseElems dec raw elemOid (elemLayout elemOid).1 (elemLayout elemOid).2.2
+                          (elemLayout elemOid).2.1 none total.toNat 0 (12 + ndim.toNat * 8) with
+                      | error e => simp [hp] at h
+                      | ok es' =>
+                        simp only [hp, ok_bind, pure_eq_ok] at h
+                        injection h with h; injection h with h; subst h
+                        have := parseElems_nobitmap_le _ _ _ _ _ _ (elemLayout_fixed_pos elemOid) _ _ _ _ hp
+                        omega
+
 end PgVerif.Proofs.Arrays
